@@ -183,3 +183,12 @@ with wfp_cl (alts : clist) (i : nat) (v : val) {struct alts} : bool :=
   | CNil => false
   | CCons _ s r => match i with O => wfp s v | S i' => wfp_cl r i' v end
   end.
+
+(* the model's side of the implementation -> model direction: the bytes are a complete encoding that the library-faithful
+   decoder accepts and that re-encodes to exactly these bytes (by C01_dec_sound the decoded value is in the domain of the
+   round-trip theorems, so everything they say applies to it) *)
+Definition sdec_accepts (s : schema) (b : bytes) : option bytes :=
+  match sdec s b with
+  | Ok (v, []) => Some (enc s v)
+  | _ => None
+  end.
